@@ -210,6 +210,64 @@ def gen_short(r):
     return "(glue-short %s)" % " ".join(evs)
 
 
+def gen_tcp(r):
+    """the same kind of history over a REAL TCP session (`glue-tcp`): only what a remote speaker and the operator can
+    cause — the session ends by the socket closing, a NOTIFICATION from the speaker, an FSM error, shutdown or disable;
+    a session is opened only when none can be up and the peer is not administratively down"""
+    evs = []
+    up = False
+    admin = False
+    fams = [0]
+    def tcp_down():
+        w = r.below(20)
+        if w < 11:
+            return "(down io)"
+        if w < 16:
+            c, s = r.pick(NOTIFS)
+            return "(down (rnotif %d %d))" % (c, s)
+        if w < 17:
+            return "(down fsm)"
+        if w < 19:
+            return "force"
+        return "disable"
+    for _ in range(2 + r.below(18)):
+        if not up:
+            k = r.weighted([("est", 8), ("attempt", 3), ("gr-timer", 3), ("llgr-timer", 3), ("force", 1),
+                            ("disable", 1), ("enable", 2 if admin else 1), ("ann", 1), ("eor", 1), ("down", 1)])
+        else:
+            k = r.weighted([("ann", 8), ("eor", 5), ("down", 5), ("gr-timer", 1), ("llgr-timer", 1), ("enable", 1)])
+        if k == "est":
+            if admin:
+                evs.append("enable"); admin = False
+                continue
+            e = gen_est(r)
+            fams = [int(x) for x in e[6:e.index(")")].split()] or [0]
+            evs.append(e); up = True
+        elif k == "attempt":
+            evs.append("attempt")
+        elif k == "ann":
+            f = r.pick(fams) if r.chance(7, 8) else r.below(NF)
+            evs.append("(ann %d %d %s %s)" % (f, r.below(NX), b(r.chance(1, 4)), b(r.chance(1, 8))))
+        elif k == "eor":
+            evs.append("(eor %d)" % (r.pick(fams) if r.chance(5, 6) else r.below(NF)))
+        elif k == "down":
+            d = tcp_down()
+            evs.append(d); up = False
+            if d == "disable":
+                admin = True
+        elif k == "llgr-timer":
+            evs.append("(llgr-timer %d)" % (r.pick(fams) if r.chance(3, 4) else r.below(NF)))
+        elif k == "force":
+            evs.append("force"); up = False
+        elif k == "disable":
+            evs.append("disable"); up = False; admin = True
+        elif k == "enable":
+            evs.append("enable"); admin = False
+        else:
+            evs.append(k)
+    return "(glue-tcp %s)" % " ".join(evs)
+
+
 def gen_noise(r):
     return "(glue %s)" % " ".join(rand_ev(r) for _ in range(2 + r.below(24)))
 
@@ -228,6 +286,8 @@ def gen(seed, n, tier):
     r = Rng(seed * 1000003 + 10)
     cases = pure_bfs()
     cases += [gen_short(r) for _ in range(8 if tier == "quick" else 60)]
+    rt = Rng(seed * 1000003 + 1010)
+    cases += [gen_tcp(rt) for _ in range(240 if tier == "quick" else 4000)]
     target = len(cases) + n
     while len(cases) < target:
         w = r.below(12)
